@@ -54,6 +54,13 @@ Definition mismatches {A} (model : A -> sx) (ok : A -> sx -> bool) (cs : list (A
 (* when the specification is a function too *)
 Definition ok_spec {A} (spec : A -> sx) : A -> sx -> bool := fun a o => sx_eqb (spec a) o.
 
-(* compact byte strings: [length; big-endian value] (what the harness prints for bytes) *)
+(* compact byte strings: [length; v1; v2; ...] with vi the big-endian values of successive 512-byte
+   chunks (what the harness prints for bytes; an empty string is [0; 0]) *)
+Definition be_val (l : list Z) : Z := fold_left (fun acc b => 256 * acc + b) l 0.
+Fixpoint chunk_vals (fuel : nat) (l : list Z) : list sx :=
+  match fuel with
+  | O => []
+  | S f => match l with [] => [] | _ => I (be_val (firstn 512 l)) :: chunk_vals f (skipn 512 l) end
+  end.
 Definition sx_b (l : list Z) : sx :=
-  L [I (Z.of_nat (length l)); I ((fix fb (l : list Z) (acc : Z) : Z := match l with [] => acc | b :: t => fb t (256 * acc + b) end) l 0)].
+  L (I (Z.of_nat (length l)) :: match l with [] => [I 0] | _ => chunk_vals (S (length l / 512)) l end).
